@@ -52,12 +52,13 @@ AStr(a) ==
     CASE a[1] = "s" -> VOk(a[2])
       [] a[1] = "n" -> VOk(IntToDec(a[2]))
       [] a[1] = "q" -> (IF a[3] < 0 /\ SmallNum(a) THEN VOk(FracToStr(a[2], a[3])) ELSE VUndef)
-      [] a[1] \in {"inf", "nan"} -> VUndef
+      [] a[1] \in {"inf", "nan", "nz"} -> VUndef              \* tostring of these: property C16
       [] OTHER -> VErr
 StrAsInt(b) == IF IsDecInt(b) THEN VOk(DecToInt(b)) ELSE IF NotNumeral(b) THEN VErr ELSE VUndef
 (* luaL_checkinteger: the rounding of non-integral numbers depends on the platform *)
 AInt(a) ==
     CASE a[1] = "n" -> VOk(a[2])
+      [] a[1] = "nz" -> VOk(0)
       [] a[1] \in {"q", "inf", "nan"} -> VUndef
       [] a[1] = "s" -> StrAsInt(a[2])
       [] OTHER -> VErr
@@ -65,11 +66,13 @@ AOptInt(a, d) == IF NoneOrNil(a) THEN VOk(d) ELSE AInt(a)
 (* luaL_checknumber as a number token *)
 ANum(a) ==
     CASE a[1] \in {"n", "q"} -> (IF SmallNum(a) THEN VOk(a) ELSE VUndef)
-      [] a[1] = "inf" -> VOk(a)
+      [] a[1] \in {"inf", "nz"} -> VOk(a)
       [] a[1] = "nan" -> VUndef
       [] a[1] = "s" -> (LET r == StrAsInt(a[2]) IN
                         IF r[1] # "ok" THEN r ELSE IF SmallNum(N(r[2])) THEN VOk(N(r[2])) ELSE VUndef)
       [] OTHER -> VErr
+(* luaL_checknumber where a NaN is a defined argument too (pow, the operators) *)
+ANumS(a) == IF a[1] = "nan" THEN VOk(a) ELSE ANum(a)
 (* luaL_checknumber for ldexp / frexp: any representable dyadic double *)
 ANumWide(a) ==
     CASE a[1] \in {"n", "q"} -> (IF WideNum(a) /\ Representable(a) THEN VOk(a) ELSE VUndef)
@@ -81,6 +84,7 @@ AFlt(a) ==
       [] a[1] = "q" -> (IF a[2] >= -1073741823 /\ a[2] <= 1073741823 /\ a[3] >= -16 /\ a[3] <= 64
                         THEN VOk(<<"fin", a[2] < 0, Abs(a[2]), a[3]>>) ELSE VUndef)
       [] a[1] = "inf" -> VOk(<<"inf", a[2] < 0>>)
+      [] a[1] = "nz" -> VOk(<<"fin", TRUE, 0, 0>>)
       [] a[1] = "nan" -> VUndef
       [] a[1] = "s" -> (LET r == StrAsInt(a[2]) IN IF r[1] # "ok" THEN r ELSE VOk(FinOf(r[2])))
       [] OTHER -> VErr
@@ -88,6 +92,7 @@ AFlt(a) ==
 ALong(a) ==
     CASE a[1] = "n" -> VOk(a[2])
       [] a[1] = "q" -> (IF SmallNum(a) THEN VOk(Tok(DTrunc(D(a)))[2]) ELSE VUndef)
+      [] a[1] = "nz" -> VOk(0)
       [] a[1] \in {"inf", "nan"} -> VUndef
       [] a[1] = "s" -> StrAsInt(a[2])
       [] OTHER -> VErr
@@ -154,10 +159,24 @@ Eval(f, args) ==
                    [] f = "modf" -> VOk(MModf(x[2]))
                    [] f = "frexp" -> MWrap(MFrexp(x[2]))
                    [] f = "sqrt" -> MWrap(MSqrt(x[2])))
-      [] f \in {"fmod", "pow"} ->
-           (LET x == ANum(a1)  y == ANum(a2)  st == Status(<<x, y>>)
+      [] f \in {"fmod", "mod", "pow"} ->                         \* math.mod is the old name of math.fmod
+           (LET x == ANumS(a1)  y == ANumS(a2)  st == Status(<<x, y>>)
             IN IF st # "ok" THEN <<st>>
-               ELSE IF f = "fmod" THEN VOk(MFmod(x[2], y[2])) ELSE MWrap(MPow(x[2], y[2])))
+               ELSE IF f = "pow" THEN MWrap(MPow(x[2], y[2])) ELSE VOk(MFmod(x[2], y[2])))
+      [] f \in {"op+", "op-", "op*", "op/", "op%", "op^"} ->        \* a <op> b with both operands in locals
+           (LET x == ANumS(a1)  y == ANumS(a2)  st == Status(<<x, y>>)
+            IN IF st # "ok" \/ Len(args) # 2 THEN <<IF st = "ok" THEN "undef" ELSE st>>
+               ELSE CASE f = "op+" -> VOk(<<MAdd(x[2], y[2])>>)
+                      [] f = "op-" -> VOk(<<MSub(x[2], y[2])>>)
+                      [] f = "op*" -> VOk(<<MMul(x[2], y[2])>>)
+                      [] f = "op/" -> MWrap(MDiv(x[2], y[2]))
+                      [] f = "op%" -> MWrap(MMod(x[2], y[2]))
+                      [] f = "op^" -> MWrap(MPow(x[2], y[2])))
+      [] f = "opneg" ->
+           (LET x == ANumS(a1) IN IF x[1] # "ok" \/ Len(args) # 1 THEN <<IF x[1] = "ok" THEN "undef" ELSE x[1]>>
+                                  ELSE VOk(<<MNeg(x[2])>>))
+      [] f = "huge" -> VOk(<<Inf(1)>>)                            \* math.huge = HUGE_VAL
+      [] f = "pi" -> VOk(<<<<"x", "3.141592653589793">>>>)          \* the double nearest to pi
       [] f = "ldexp" ->
            (LET x == ANumWide(a1)  k == AInt(a2)  st == Status(<<x, k>>)
             IN IF st # "ok" THEN <<st>>
